@@ -476,7 +476,9 @@ retry_after_fb:
             if (!hit) { // reach to range end
                 // callback range, from last_key to range_end.
                 // if last_key = range_end_key and range_end_ep = INCLUSIVE, callback range is empty
-                if (!(eep == scan_endpoint::INCLUSIVE && last_key == ekt)) { // NOLINT(*-simplify-boolean-expr)
+                // (only if the end key lies in this layer: otherwise ekt is the +-inf placeholder of the layer, which
+                // can coincide with a real tuple such as a link with slice 0xFF * 8)
+                if (!(cmp_to_end == 0 && eep == scan_endpoint::INCLUSIVE && last_key == ekt)) { // NOLINT(*-simplify-boolean-expr)
                     if (bnv_cb(bn->get_version_ptr(), v_at_fb)) {
                         return status::WARN_ABORTED_BY_USER;
                     }
@@ -589,7 +591,9 @@ retry_after_fb:
 
     // callback range, from last_key to range_end.
     // if last_key = range_end_key and range_end_ep = INCLUSIVE, callback range is empty
-    if (!(eep == scan_endpoint::INCLUSIVE && last_key == ekt)) { // NOLINT(*-simplify-boolean-expr)
+    // (only if the end key lies in this layer: otherwise ekt is the +-inf placeholder of the layer, which
+    // can coincide with a real tuple such as a link with slice 0xFF * 8)
+    if (!(cmp_to_end == 0 && eep == scan_endpoint::INCLUSIVE && last_key == ekt)) { // NOLINT(*-simplify-boolean-expr)
         if (bnv_cb(bn->get_version_ptr(), v_at_fb)) {
             return status::WARN_ABORTED_BY_USER;
         }
